@@ -44,7 +44,7 @@ var c07Names = []string{"/a", "/b"}
 var c07Calls int
 
 func c07Op(v *verifFS, tag string) error {
-	op := vm.Choice(tag, 7)
+	op := vm.Choice(tag, 9)
 	switch op {
 	case 0:
 		// the mode differs from call to call so that a re-created directory is distinguishable
@@ -74,6 +74,11 @@ func c07Op(v *verifFS, tag string) error {
 		return v.FS.Rename("/b", "/a")
 	case 6:
 		return v.FS.Chmod("/a", 0o600)
+	case 7:
+		// a symbolic link whose own path is one of the reused names
+		return v.FS.SymlinkIfPossible("/b", "/a")
+	case 8:
+		return v.FS.Remove("/b")
 	}
 	return nil
 }
@@ -99,10 +104,17 @@ func Harness_C07_reindex_converges() {
 	}
 	snaps := []*persisters.MetadataPersister{c07Snapshot(v)}
 	hasMove := false
+	renameWithLink := false
 	for i := 0; i < n; i++ {
 		tag := "op" + string(rune('0'+i))
 		before := v.Env.Tape.Appends
 		rows := v.Env.P.VerifRows()
+		linkExists := false
+		for _, r := range rows {
+			if r.Deleted != 1 && r.Linkname != "" {
+				linkExists = true
+			}
+		}
 		_ = c07Op(v, tag)
 		if v.Env.Tape.Appends != before {
 			// a record was appended: was it a move? (a row changed its name)
@@ -110,12 +122,16 @@ func Harness_C07_reindex_converges() {
 			for j := range rows {
 				if j < len(after) && after[j].Name != rows[j].Name {
 					hasMove = true
+					if linkExists {
+						renameWithLink = true
+					}
 				}
 			}
 		}
 		snaps = append(snaps, c07Snapshot(v))
 	}
 	vm.Known("C07-replay-of-move-not-idempotent", hasMove)
+	vm.Known("C07-rename-while-a-link-exists", renameWithLink)
 	scratch, serr := c01Rebuild(v)
 	vm.Assert("C07.scratch_rebuild_ok", serr == nil)
 	if serr != nil {
